@@ -1154,6 +1154,40 @@ pub fn run(op: &str, a: &[&str]) -> Option<String> {
         "io.write.tcp" => simple_write!(a, mk_tcp),
         "io.write.icmpv4" => simple_write!(a, mk_icmpv4),
         "io.write.icmpv6" => simple_write!(a, mk_icmpv6),
+        // ---- Icmpv6Payload::write (the fixed NDP payload parts): kind + the payload's own bytes
+        "io.write.icmpv6payload" => match a {
+            [kind, h, k] => {
+                let b = hex(h)?;
+                let k: usize = num(k)?;
+                let a16 = |x: &[u8]| -> Option<core::net::Ipv6Addr> {
+                    let y: [u8; 16] = x.try_into().ok()?;
+                    Some(core::net::Ipv6Addr::from(y))
+                };
+                let p = match (*kind, b.len()) {
+                    ("rs", 0) => icmpv6::Icmpv6Payload::RouterSolicitation(icmpv6::RouterSolicitationPayload),
+                    ("ra", 8) => icmpv6::Icmpv6Payload::RouterAdvertisement(icmpv6::RouterAdvertisementPayload {
+                        reachable_time: u32::from_be_bytes(b[0..4].try_into().ok()?),
+                        retrans_timer: u32::from_be_bytes(b[4..8].try_into().ok()?),
+                    }),
+                    ("ns", 16) => icmpv6::Icmpv6Payload::NeighborSolicitation(icmpv6::NeighborSolicitationPayload {
+                        target_address: a16(&b)?,
+                    }),
+                    ("na", 16) => icmpv6::Icmpv6Payload::NeighborAdvertisement(icmpv6::NeighborAdvertisementPayload {
+                        target_address: a16(&b)?,
+                    }),
+                    ("rd", 32) => icmpv6::Icmpv6Payload::Redirect(icmpv6::RedirectPayload {
+                        target_address: a16(&b[..16])?,
+                        destination_address: a16(&b[16..])?,
+                    }),
+                    _ => return None,
+                };
+                if p.len() != b.len() {
+                    return Some("!len-differs".to_string());
+                }
+                wr_line(k, |w| p.write(w), io_err)
+            }
+            _ => return None,
+        },
         // ---- the enum wrappers (LinkHeader::write, TransportHeader::write)
         "io.write.link.eth2" => simple_write!(a, |f| mk_eth2(f).map(|o| o.map(LinkHeader::Ethernet2))),
         "io.write.link.sll" => simple_write!(a, |f| mk_sll(f).map(|o| o.map(LinkHeader::LinuxSll))),
